@@ -65,14 +65,29 @@ def parse_atom(a):
         return ("eqParamOrNull", m.group(1), int(m.group(2)))
     if re.fullmatch(r"\( ?expiry IS NULL OR DATETIME\( ?expiry ?\) ?> ?DATETIME\( ?'now' ?\) ?\)", a, flags=re.I):
         return ("expiryLive",)
+    if re.fullmatch(r"\( ?expiry IS NULL OR expiry ?> ?CURRENT_TIMESTAMP ?\)", a, flags=re.I):
+        return ("expiryLivePg",)
     return ("other", a)
 
 
 def parse_stmt(sql):
     """very small parser for the eleven fixed statements; raises when the shape is not one it knows"""
     t = _norm(sql)
+    # Postgres spells placeholders `$n`; the shapes are the same
+    t = re.sub(r"\$(\d+)", r"?\1", t)
+    st = {"verb": "", "table": "", "policy": "", "cols": [], "where": [], "returning": "", "lock": ""}
+    m = re.search(r" FOR (NO KEY UPDATE|UPDATE|SHARE|KEY SHARE)$", t, flags=re.I)
+    if m:
+        st["lock"] = "for " + m.group(1).lower()
+        t = t[:m.start()]
+    m = re.search(r" ON CONFLICT DO NOTHING( RETURNING (\w+))?$", t, flags=re.I)
+    pg_ignore = False
+    if m and t.upper().startswith("INSERT"):
+        pg_ignore = True
+        if m.group(2):
+            st["returning"] = m.group(2).lower()
+        t = t[:m.start()]
     up = t.upper()
-    st = {"verb": "", "table": "", "policy": "", "cols": [], "where": [], "returning": ""}
     def where_of(rest):
         m = re.search(r"\bRETURNING\b (.*)$", rest, flags=re.I)
         if m:
@@ -113,6 +128,10 @@ def parse_stmt(sql):
         if not m:
             raise RuntimeError("INSERT shape: " + t)
         st["policy"] = (m.group(1) or "").lower()
+        if pg_ignore:
+            if st["policy"]:
+                raise RuntimeError("INSERT with two conflict policies: " + t)
+            st["policy"] = "ignore"
         st["table"] = m.group(2).lower()
         cols = [c.strip() for c in m.group(3).split(",")]
         vals = [v.strip() for v in m.group(4).split(",")]
@@ -131,6 +150,8 @@ def lean_atom(a):
         return f'.eqParamOrNull {lean_str(a[1])} {a[2]}'
     if a[0] == "expiryLive":
         return ".expiryLive"
+    if a[0] == "expiryLivePg":
+        return ".expiryLivePg"
     return f'.other {lean_str(a[1])}'
 
 
@@ -138,7 +159,7 @@ def lean_stmt(st):
     cols = ", ".join(f"({lean_str(c)}, {n})" for c, n in st["cols"])
     atoms = ", ".join(lean_atom(a) for a in st["where"])
     return (f'{{ verb := {lean_str(st["verb"])}, table := {lean_str(st["table"])}, policy := {lean_str(st["policy"])}, '
-            f'cols := [{cols}], whereAtoms := [{atoms}], returning := {lean_str(st["returning"])} }}')
+            f'cols := [{cols}], whereAtoms := [{atoms}], returning := {lean_str(st["returning"])}, lock := {lean_str(st["lock"])} }}')
 
 
 def regenerate(repo, outdir):
@@ -181,6 +202,17 @@ def regenerate(repo, outdir):
         out.append(f"def {lname} : Stmt :=\n  {lean_stmt(parse_stmt(consts[n]))}")
     out += ["", "end Askar.Sql.Generated", ""]
     write_if_changed(os.path.join(outdir, "Stmts.lean"), "\n".join(out))
+    # --- the Postgres backend's statements (no server in the sandbox: tied by proof obligations only)
+    pconsts = sql_consts(read(repo, "askar-storage/src/backend/postgres/mod.rs"))
+    out = ["/- GENERATED by tools/extract.py from /repo on every run — do not edit. -/",
+           "import AskarModel.Model.SqlShape", "namespace Askar.Sql.GeneratedPg", ""]
+    for n in shapes[:3] + ["FETCH_QUERY_UPDATE"] + shapes[3:]:
+        if n not in pconsts:
+            raise RuntimeError(f"statement constant {n} not found in postgres/mod.rs")
+        lname = n[0].lower() + re.sub(r"_(.)", lambda m: m.group(1).upper(), n[1:].lower())
+        out.append(f"def {lname} : Stmt :=\n  {lean_stmt(parse_stmt(pconsts[n]))}")
+    out += ["", "end Askar.Sql.GeneratedPg", ""]
+    write_if_changed(os.path.join(outdir, "StmtsPg.lean"), "\n".join(out))
     # --- flags: which variant of a defect site the CURRENT source has (the models' `current` configurations read these,
     # so that model and code move together when a repair lands or is reverted; the correspondence run checks the rest)
     def has(rel, pattern):
